@@ -122,13 +122,17 @@ def ref_answer(solver, logic, decls, assertions, timeout=10, want_model=False):
     lines.append("(check-sat)")
     if want_model:
         lines.append("(get-model)")
-    rc, out = vlib.run_ref(solver, "\n".join(lines) + "\n", timeout=timeout)
+    script = "\n".join(lines) + "\n"
+    # opensmt's auxiliary symbols start with '.', which cvc5 reserves: rename them consistently for the oracles
+    script = re.sub(r"(?<![\w|.!@])\.([A-Za-z_][\w.!]*)", r"vaux_\1", script)
+    rc, out = vlib.run_ref(solver, script, timeout=timeout)
     first = out.strip().split("\n")[0].strip() if out.strip() else "unknown"
     if first not in ("sat", "unsat"):
         first = "unknown"
     model = None
     if want_model and first == "sat":
         try:
+            out = re.sub(r"(?<![\w|.!@])vaux_([A-Za-z_][\w.!]*)", r".\1", out)
             sx = read_all(out[out.index("sat") + 3:])
             model = sx[0] if sx else None
             if model and model[0] == "model":
